@@ -409,6 +409,16 @@ func c08R2(p *Prog, r *Report) {
 				}
 			}
 		})
+		// early-return spelling: `return <source name>` reached only when the transformer lookup failed
+		for _, b := range fsf.Blocks {
+			for _, in := range b.Instrs {
+				if ret, ok := in.(*ssa.Return); ok && len(ret.Results) == 1 && sameVar(ret.Results[0], lkMap.Index) {
+					if dominatedByEdge(b, false, okOf(lkTr)) {
+						fallbackGuarded = true
+					}
+				}
+			}
+		}
 		if trGuarded && fallbackGuarded && sameVar(lkMap.Index, lkTr.Index) {
 			okPrec = true
 		}
